@@ -64,6 +64,7 @@ type verifStorage struct {
 	blockedWriteDone              int
 	truth                         func(name string, off int64, p []byte) bool
 	lastWrite                     func(name string, off int64, n int) bool
+	firstWrite                    func(name string, off int64) bool
 }
 
 func newVerifStorage() *verifStorage {
@@ -150,7 +151,10 @@ func (f *verifFile) WriteAt(p []byte, off int64) (int, error) {
 		f.s.log = append(f.s.log, fmt.Sprintf("writeclosed:%s:%d:%d", f.name, off, len(p)))
 		return 0, os.ErrClosed
 	}
-	if f.s.failWrite {
+	// failWrite: the first storage call of every piece fails. (The piece writer gives up at the first error, so
+	// for it this is "every write fails"; a writer that went on after an error would get the rest of the piece
+	// stored — the later sections are not refused.)
+	if f.s.failWrite && (f.s.firstWrite == nil || f.s.firstWrite(f.name, off)) {
 		f.s.log = append(f.s.log, fmt.Sprintf("writefail:%s:%d:%d", f.name, off, len(p)))
 		return 0, errors.New("verif: write failed")
 	}
@@ -712,6 +716,29 @@ func VerifNewWorld(op string) (*VerifWorld, string) {
 					return true
 				}
 				return end%w.pl == 0
+			}
+			pos += l
+		}
+		return true
+	}
+	// firstWrite: the write at off into the file is the first storage call of its piece
+	w.sto.firstWrite = func(name string, off int64) bool {
+		pos := 0
+		for i, l := range w.flens {
+			if w.fileName(i) == name && !w.fpads[i] {
+				g := pos + int(off)
+				if off != 0 {
+					return g%w.pl == 0
+				}
+				pieceStart := g / w.pl * w.pl
+				q := pos
+				for j := i - 1; j >= 0 && q > pieceStart; j-- {
+					if !w.fpads[j] && w.flens[j] > 0 {
+						return false
+					}
+					q -= w.flens[j]
+				}
+				return true
 			}
 			pos += l
 		}
@@ -2112,6 +2139,7 @@ func (w *VerifWorld) crashCheck(m map[string]string) string {
 	}
 	sto.truth = w.sto.truth
 	sto.lastWrite = w.sto.lastWrite
+	sto.firstWrite = w.sto.firstWrite
 	cfg := w.sess.config
 	cfg.Database = dbPath
 	cfg.CustomStorage = sto
@@ -2186,6 +2214,7 @@ func (w *VerifWorld) reloadCheck() string {
 	sto := w.sto.clone()
 	sto.truth = w.sto.truth
 	sto.lastWrite = w.sto.lastWrite
+	sto.firstWrite = w.sto.firstWrite
 	cfg := w.sess.config
 	cfg.Database = dbPath
 	cfg.CustomStorage = sto
